@@ -40,10 +40,15 @@ def run(res):
                          ('c12_mutant_flag_first', rc.consts(maps=2, handles=1, ops=OPS_STATIC, builders=['m0'], phased=True,
                                                              FlagAfterLoad=False),
                           rc.INV_CACHE, rc.PROP_CACHE, ('CachedTellsTruth', 'SameObject'))])
-    for name, (c, ov) in _configs(thorough).items():
-        g = rc.check_and_replay(res, name, c, ov, rc.INV_CACHE + ['MirrorsMap'], rc.PROP_CACHE + ['SnapshotReadsThrough'],
-                                own=FACETS_CACHE, probe=False, depth_all=3, walks=3000 if thorough else 1000, walk_len=30,
-                                shifts=(0, 1, 2, 3, 4) if name == 'c12_static' or thorough else (0,), before_replay=join)
+    cfgs = _configs(thorough)
+    inv, prop = rc.INV_CACHE + ['MirrorsMap'], rc.PROP_CACHE + ['SnapshotReadsThrough']
+    pre = rc.dumps_in_parallel(res, cfgs, inv, prop)
+    join()
+    for name, (c, ov) in cfgs.items():
+        # one handle: every edge under three value kinds ('' / [] / weird; None and 0 in the later passes)
+        rc.check_and_replay(res, name, c, ov, inv, prop, own=FACETS_CACHE, probe=False, depth_all=3,
+                            walks=3000 if thorough else 1000, walk_len=30, pre=pre[name],
+                            shifts=(0, 1, 2, 3, 4) if thorough else (2, 3, 4) if name == 'c12_static' else (0,))
         if res.violations:
             break
 
